@@ -451,7 +451,7 @@ PROPS["C02"] = dict(_tx("C02", ["C02_one_clean_round_suffices", "C02_any_order_a
                                 "C02_requests_exactly_what_is_missing", "C02_timer_gives_up_only_at_limit",
                                 "C02_closing_receiver_completes", "C02_closing_sender_acks_and_ends",
                                 "C02_closing_receiver_ends_on_ack", "C02_metadata_marker_kept",
-                                "C02_metadata_retransmitted_on_marker"], ["link", "recv", "send"],
+                                "C02_metadata_retransmitted_on_marker", "C02_request_answered"], ["link", "recv", "send"],
     "Proof (PARTIAL) of the recovery argument at the data level: from ANY well-formed state of the receiver's bookkeeping and "
     "any file size, the requests the receiver computes (exactly what is missing, C08) answered with the pieces the sender cuts "
     "them into (C07) complete the file - in any order, with any duplication, an empty file and a missing first segment "
